@@ -429,6 +429,27 @@ func dedupe(in []St) []St {
 func (x *Exec) block(b *cfg.Block, s St) {
 	x.curBlock, x.curKey = b.Index, s.Key()
 	states := []St{s}
+	if b.Kind == cfg.KindSelectAfterCase && len(b.Succs) == 0 {
+		// the last "no case chosen" block of a select without default is a
+		// dead end in go/cfg: a select blocks until one of its cases runs
+		return
+	}
+	if b.Kind == cfg.KindSelectAfterCase && len(b.Succs) == 1 && b.Succs[0].Kind == cfg.KindSelectDone && len(b.Nodes) == 0 {
+		// go/cfg lets control fall from the last case test to the end of a
+		// select; without a default clause a select blocks until one of its
+		// cases is chosen, so that edge is infeasible.
+		if sel, ok := b.Succs[0].Stmt.(*ast.SelectStmt); ok {
+			hasDefault := false
+			for _, cl := range sel.Body.List {
+				if cc, ok := cl.(*ast.CommClause); ok && cc.Comm == nil {
+					hasDefault = true
+				}
+			}
+			if !hasDefault {
+				return
+			}
+		}
+	}
 	if b.Kind == cfg.KindSelectCaseBody {
 		if cc, ok := b.Stmt.(*ast.CommClause); ok && cc.Comm != nil {
 			if _, hoisted := x.Fn.commStmts[cc.Comm]; hoisted {
